@@ -76,7 +76,20 @@ impl Field {
             },
             Field::Raw(b, pre) => vec![Step::Push(Cell::Bitstr(embed(r, b, *pre, 0)))],
             Field::Str(s) => vec![Step::Push(Cell::from(s.clone()))],
-            Field::Bytes(l) => vec![Step::Push(int_vec(l.iter().cloned()))],
+            Field::Bytes(l) => {
+                // byte lists whose elements carry tags (what `u8` / `uint` hand back when a list is parsed and re-packed,
+                // constants written with `^hex`): tags never change what a value does (C13), the bits are the same
+                if !l.is_empty() && l.iter().all(|b| (0..256).contains(b)) && r.chance(35) {
+                    let items: Vec<String> = l.iter().enumerate().map(|(i, b)| match (i + *b as usize) % 3 {
+                        0 => format!("{} ^hex", b),
+                        1 => format!("|{:02X}| open-bitstr u8 close-bitstr", b),
+                        _ => format!("{}", b),
+                    }).collect();
+                    vec![Step::Word(format!("[ {} ]", items.join(" ")))]
+                } else {
+                    vec![Step::Push(int_vec(l.iter().cloned()))]
+                }
+            }
             Field::Cstr(l) => vec![Step::Push(int_vec(l.iter().map(|b| *b as i128).chain(std::iter::once(0))))],
         }
     }
@@ -283,6 +296,8 @@ fn emit_split(base_xs: &Xstate, r: &mut crate::rng::Rng, fs: &[Field], sizes: &[
                 exec(&mut xs, vec![Step::Word(junk), Step::Word("swap 2 collect >bitstr open-bitstr".into()), Step::Word(format!("{} bits drop {} bits close-bitstr", k, len))])?;
             }
             exec(&mut xs, vec![Step::Word("emit".into())])?;
+            // switching interception on while it is on changes nothing: what has been emitted stays in `output`
+            if r.chance(20) { xs.intercept_output(true).map_err(|e| format!("{:?}", e))?; }
         }
         Ok(())
     })();
